@@ -210,9 +210,11 @@ class FnAnalysis:
             if k == "*":
                 nt = []
                 for (b, p) in targets:
-                    als = self.alias.get(b) if p == () else None
+                    als = self.alias.get(b)
                     if als:
-                        nt.extend(als)
+                        # one level of indirection; prefer the ultimate referents over borrow carriers
+                        leaves = [x for x in als if not self.alias.get(x[0])]
+                        nt.extend(leaves if leaves else als)
                     else:
                         nt.append((b, p))
                 targets = nt
@@ -285,9 +287,28 @@ class FnAnalysis:
         targets, _ = self.resolve_targets(l, keys)
         out = set()
         for (b, p) in targets:
-            if p == ():
-                out |= self.alias.get(b, set())
+            # aliasing is field-insensitive: a reference stored anywhere inside b may be the one read
+            out |= self.alias.get(b, set())
         return out
+
+    def alias_closure(self, als):
+        seen = set()
+        work = list(als)
+        while work:
+            x = work.pop()
+            if x in seen:
+                continue
+            seen.add(x)
+            for y in self.alias.get(x[0], ()):
+                if y not in seen:
+                    work.append(y)
+        return seen
+
+    def args_aliases(self, args):
+        als = set()
+        for a in args:
+            als |= self.operand_aliases(a)
+        return self.alias_closure(als)
 
     def write_targets(self, targets, st):
         ch = False
@@ -297,8 +318,15 @@ class FnAnalysis:
         if ch:
             self.changed = True
 
+    def can_hold_borrow(self, l):
+        ty = self.ty(l)
+        s = ty["s"]
+        return ty["k"] in ("ref", "ptr") or "&" in s or "'" in s or "*const" in s or "*mut" in s or ty["k"] == "closure"
+
     def write_place(self, place, st, aliases=None):
         l, proj = place
+        if aliases and not proj and not self.can_hold_borrow(l):
+            aliases = None
         keys = place_path(proj)
         targets, _ = self.resolve_targets(l, keys)
         self.write_targets(targets, st)
@@ -446,12 +474,8 @@ class FnAnalysis:
         st = Struct()
         for q, atoms in sm.ret.m.items():
             st.add(q, self.subst_atoms(atoms, argst, g))
-        als = set()
-        for a in t.args:
-            als |= self.operand_aliases(a)
-            if a.kind in ("copy", "move") and not a.place[1] and self.is_ref_local(a.place[0]) is False:
-                pass
-        self.write_place(t.dest, st, als if self.returns_borrow(t) else None)
+        als = self.args_aliases(t.args)
+        self.write_place(t.dest, st, als)
         for pj, pst in sm.muts.items():
             j = pj - 1
             if j >= len(t.args):
@@ -496,7 +520,8 @@ class FnAnalysis:
                 for y in self.alias.get(x[0], ()):
                     if y not in seen:
                         work.append(y)
-        self.write_targets(list(seen)[:128], st)
+        leaves = [x for x in seen if not self.alias.get(x[0])]
+        self.write_targets((leaves if leaves else list(seen))[:128], st)
 
     def default_call(self, t, argst):
         allatoms = set()
@@ -506,9 +531,7 @@ class FnAnalysis:
         p = (c.rpath or c.path or "") if c.indirect is None else ""
         if RNG_SOURCES.search(p):
             allatoms = allatoms | {("rng",)}
-        als = set()
-        for a in t.args:
-            als |= self.operand_aliases(a)
+        als = self.args_aliases(t.args)
         self.write_place(t.dest, Struct({(): allatoms}), als)
         for a in t.args:
             if a.kind in ("copy", "move") and self.arg_is_mut_ref(a):
@@ -614,9 +637,7 @@ class FnAnalysis:
         c = t.callee
         full = c.rpath or c.path or ""
         n = len(argst)
-        als = set()
-        for a in t.args:
-            als |= self.operand_aliases(a)
+        als = self.args_aliases(t.args)
         is_std = not (c.did is not None or c.rdid is not None)
         if not is_std:
             return False
